@@ -514,6 +514,14 @@ def run(facts, rep, tier, ctx):
             d = o["key"].split("|")[2]
             if "stream copy" in d:
                 rep.ob(("A/" if w_.asyncw else "") + "R20.8", o["fn"], d, o["ok"], o["detail"], o["loc"])
+    # R20.11 read_to_string hands the handle to the std read-to-end routine and propagates its error: a hand-written chunk loop
+    # (`while let Ok(n @ 1..) = file.read(..)`) takes a read error for the end of the file and returns a truncated string as success
+    # (shared with C04 R04.5)
+    from . import c04 as _c04r20
+    from .c10 import _Prefixed as _Pf20r
+    for w_ in (ws, wa):
+        if w_.present():
+            _c04r20.read_to_string_rules(facts, _Pf20r(rep, "A") if w_.asyncw else rep, w_, D, "R20.11/R04.5")
     # R20.9 the overlay serves reads from the resolved path and hands that call's result on unchanged: no "try the next layer
     # when this one fails" (a failing upper layer would be answered with a lower layer's stale bytes)
     from . import c04
